@@ -80,14 +80,20 @@ def place(art, k, n):
     return "\n" * n + "\n".join((" " * k + l) if l else l for l in art.split("\n"))
 
 
+def dispw(s):
+    """display columns of a string: East Asian wide / fullwidth characters take two"""
+    import unicodedata
+    return sum(2 if unicodedata.east_asian_width(c) in ("W", "F") else 1 for c in s)
+
+
 def side_by_side(a, b, gap):
     la = a.split("\n")
     lb = b.split("\n")
-    wa = max((len(l) for l in la), default=0)
+    wa = max((dispw(l) for l in la), default=0)
     n = max(len(la), len(lb))
     la += [""] * (n - len(la))
     lb += [""] * (n - len(lb))
-    return "\n".join((x.ljust(wa + gap) + y).rstrip() for x, y in zip(la, lb))
+    return "\n".join((x + " " * (wa + gap - dispw(x)) + y).rstrip() for x, y in zip(la, lb))
 
 
 def mixed_alphabet(rng):
